@@ -68,4 +68,17 @@ func init() {
 		return fr.freshResult(st, rt, "ctx")
 	})
 	pure("(*net/http.Request).Context")
+
+	reg("html.EscapeString", "returns a string", func(fr *Frame, in ssa.Instruction, st *State, args []Value, rt types.Type) Value {
+		return freshStr(fr.p, st, "escaped")
+	})
+	pure("html.EscapeString")
+	reg("(*strings.Builder).WriteString", "appends to the builder (its content is not modelled); never fails", func(fr *Frame, in ssa.Instruction, st *State, args []Value, rt types.Type) Value {
+		return fr.freshResult(st, rt, "wrote")
+	})
+	pure("(*strings.Builder).WriteString")
+	reg("(*strings.Builder).String", "returns the accumulated string (arbitrary here)", func(fr *Frame, in ssa.Instruction, st *State, args []Value, rt types.Type) Value {
+		return freshStr(fr.p, st, "built")
+	})
+	pure("(*strings.Builder).String")
 }
